@@ -31,3 +31,13 @@ func AssertExcept(c bool, label, finding string, signature bool)  {}
 func Try(f func()) (panicked bool, msg string)                    { return false, "" }
 func Override(target string, fn any)                              {}
 func Observe(label string, v any)                                 {}
+
+// file-system model (C18); see engine/sym/fs.go
+func FSPath(name string) string              { return name }
+func FSWrite(name, content string)           {}
+func FSRead(name string) (string, bool)      { return "", false }
+func FSArm(op int, k int, crash bool)        {}
+func FSOps() int                             { return 0 }
+func FSWrites(name string) int               { return 0 }
+func FSOthers() int                          { return 0 }
+func FSSymlink(name string)                  {}
